@@ -276,13 +276,25 @@ class Lane:
         cfg = dict(ctx.plan["config"])
         if self.token_map and cfg.get("target_uuids"):
             cfg["target_uuids"] = [self.token_map.get(u, u) for u in cfg["target_uuids"]]
-        self.config = R["PerceptionEvaluationConfig"](
-            dataset_paths=[d],
-            frame_id=self.frame.upper() if cfg.get("frame_upper") else self.frame,
-            result_root_directory=os.path.join(ctx.root, "result_%s" % self.name),
-            evaluation_config_dict=config_dict(cfg),
-            load_raw_data=bool(ctx.plan["storage"].get("raw")),
-        )
+        try:
+            self.config = R["PerceptionEvaluationConfig"](
+                dataset_paths=[d],
+                frame_id=self.frame.upper() if cfg.get("frame_upper") else self.frame,
+                result_root_directory=os.path.join(ctx.root, "result_%s" % self.name),
+                evaluation_config_dict=config_dict(cfg),
+                load_raw_data=bool(ctx.plan["storage"].get("raw")),
+            )
+        except Exception as e:  # noqa
+            # every generated configuration is a legal one: an exception escaping from repository code while it is
+            # being taken in is reported under the property whose parameters that code handles
+            from .oracles_step import attribute_exception
+
+            tb = traceback.extract_tb(e.__traceback__)
+            prop, sig = attribute_exception(tb, R["src"], "C13")
+            if prop is None:
+                raise
+            ctx.violate(prop, "no_exception", "configuration rejected: " + sig % type(e).__name__, {"error": str(e)[:300]})
+            raise LaneAborted("configuration rejected") from e
         try:
             self.manager = R["PerceptionEvaluationManager"](evaluation_config=self.config)
         except Exception as e:  # noqa
